@@ -164,6 +164,52 @@ def _pytime(nod):
     return pydt.time(h, mi, s, ns // 1000)
 
 
+_poke_n = [0]
+
+
+def _poke(pat):
+    """every 7th call: a FAILING use of the shared built-in pattern object first (a value of the wrong type, None, a
+    text that does not parse) - whatever such a call leaves behind must not leak into the next answer"""
+    _poke_n[0] += 1
+    if _poke_n[0] % 7:
+        return
+    P = _P()
+    for bad in (P.LocalDate(2020, 1, 2), P.LocalTime(3, 4, 5), None, 12345, "x"):
+        try:
+            pat.format(bad)
+        except Exception:  # noqa: BLE001
+            pass
+    try:
+        pat.parse("2020-01-02Tgarbage\x00")
+        pat.parse("")
+    except Exception:  # noqa: BLE001
+        pass
+
+
+def _variable_precision(what, pat, v, nod, std_read, std_value, ns):
+    """variable_precision_iso writes the SHORTEST ISO form that loses nothing (HH, HH:mm, HH:mm:ss, with fraction): the
+    text must parse back to exactly v with the same pattern, the stdlib must read it as the value (to microseconds),
+    and the form must be as short as the value allows"""
+    txt = pat.format(v)
+    back, why = parse_ok(pat, txt)
+    if back != v:
+        return fail("iso-variable-precision-loses", f"{what} variable_precision_iso wrote {txt!r} for nanosecond of day {nod}; "
+                    f"parsing it back gives {back!r} ({why}) - the short form dropped part of the value")
+    tpart = txt.split("T")[-1]
+    want_len = 2 if nod % (3600 * NPS) == 0 else 5 if nod % (60 * NPS) == 0 else 8 if nod % NPS == 0 else None
+    if want_len is not None and len(tpart) != want_len:
+        return fail("iso-variable-precision-form", f"{what} variable_precision_iso wrote {txt!r} for nanosecond of day {nod}: expected a time part of {want_len} characters")
+    if want_len is None and "." not in tpart:
+        return fail("iso-variable-precision-loses", f"{what} variable_precision_iso wrote {txt!r} for nanosecond of day {nod}: the fraction is missing")
+    try:
+        got = std_read(txt)
+    except ValueError as e:
+        return fail("iso-variable-precision-vs-stdlib", f"stdlib rejects {txt!r}: {e}")
+    if got != std_value:
+        return fail("iso-variable-precision-vs-stdlib", f"stdlib reads {txt!r} as {got}, value is {std_value}")
+    return None
+
+
 def oracle_time(nod):
     P, T = _P(), _T()
     v = P.LocalTime.from_nanoseconds_since_midnight(nod)
@@ -171,6 +217,7 @@ def oracle_time(nod):
     LT = T.LocalTimePattern
     for kind, pat, rx in (("ext", LT.extended_iso, RE_TIME_EXT), ("long", LT.long_extended_iso, RE_TIME_LONG),
                           ("gen", LT.general_iso, RE_TIME_GEN)):
+        _poke(pat)
         txt = pat.format(v)
         if txt != ref_time(nod, kind):
             return fail("iso-time-format-" + kind, f"nanosecond of day {nod}: pattern wrote {txt!r}, ISO text is {ref_time(nod, kind)!r}")
@@ -189,6 +236,10 @@ def oracle_time(nod):
         expv = v if kind != "gen" else P.LocalTime.from_nanoseconds_since_midnight(nod - ns)
         if back != expv:
             return fail("iso-time-reparse-" + kind, f"{kind}: parse({txt!r}) -> {why} {back!r}")
+    f = _variable_precision("time", LT.variable_precision_iso, v, nod, lambda t: pydt.time.fromisoformat(t),
+                            pydt.time(h, mi, s, ns // 1000), ns)
+    if f:
+        return f
     # the stdlib writes, the patterns read (microsecond values)
     pt = _pytime(nod)
     w = pt.isoformat()
@@ -218,6 +269,7 @@ def oracle_datetime(case):
     LDT = T.LocalDateTimePattern
     pd = pydt.datetime(y, m, d, h, mi, s, ns // 1000)
     for kind, pat in (("ext", LDT.extended_iso), ("gen", LDT.general_iso), ("bcl", LDT.bcl_round_trip)):
+        _poke(pat)
         txt = pat.format(v)
         ref = ref_date(y, m, d) + "T" + ref_time(nod, kind)
         if txt != ref:
@@ -234,6 +286,9 @@ def oracle_datetime(case):
         got, why = parse_ok(pat, txt)
         if got != expv:
             return fail("iso-datetime-reparse-" + kind, f"{kind}: parse({txt!r}) -> {why} {got!r}")
+    f = _variable_precision("datetime", LDT.variable_precision_iso, v, nod, lambda t: pydt.datetime.fromisoformat(t), pd, ns)
+    if f:
+        return f
     w = pd.isoformat()
     expv = P.LocalDate(y, m, d).at(P.LocalTime.from_nanoseconds_since_midnight(nod - ns % 1000))
     got, why = parse_ok(LDT.extended_iso, w)
@@ -264,6 +319,7 @@ def oracle_instant(case):
     pdt = pydt.datetime(pd0.year, pd0.month, pd0.day, h, mi, s, ns // 1000, tzinfo=UTC)
     IP = T.InstantPattern
     for kind, pat in (("ext", IP.extended_iso), ("gen", IP.general)):
+        _poke(pat)
         txt = pat.format(v)
         ref = ref_date(pd0.year, pd0.month, pd0.day) + "T" + ref_time(nod, kind) + "Z"
         if not txt.endswith("Z"):
@@ -470,6 +526,13 @@ def gen_nods(ctx, n):
                 ns = (body % 10 ** w) * 10 ** (9 - w)
             for sec in (0, 59, 86399, rng.randrange(86400)):
                 out.append(sec * NPS + ns)
+    # whole hours / minutes / seconds plus less than one tick (100 ns), one tick, one microsecond: what a predicate that
+    # works in ticks or microseconds would drop
+    for base in (0, 3600 * NPS, 12 * 3600 * NPS + 30 * 60 * NPS, 23 * 3600 * NPS + 59 * 60 * NPS, 45296 * NPS):
+        for r in (1, 42, 99, 100, 101, 999, 1000, 999_999, 1_000_000):
+            out.append(base + r)
+    for _ in range(n // 20):
+        out.append(rng.randrange(24) * 3600 * NPS + rng.choice([0, rng.randrange(60) * 60 * NPS]) + rng.choice([1, 7, 99, 100, 1000]))
     for _ in range(n):
         c = rng.random()
         sec = rng.choice([0, 59, 60, 3599, 3600, 43199, 43200, 86399]) if c < 0.2 else rng.randrange(86400)
